@@ -1,6 +1,7 @@
 //! vh: conformance harness. `vh <engine> --cases <file> --out <trace.ndjson> [--seed N] [--tier quick|thorough]`
 mod common;
 mod eng_bereq;
+mod daemon_conc;
 mod daemon_seq;
 mod eng_client;
 mod eng_daemon;
